@@ -15,7 +15,7 @@ import base64
 import numpy as np
 import xarray
 
-from implcommon import read_payload, emit, hx, unhx, guarded
+from implcommon import read_payload, emit, hx, unhx, guarded, audit
 
 from ocean_science_utilities.wavespectra.spectrum import FrequencyDirectionSpectrum
 from ocean_science_utilities.wavephysics.balance.st4_wind_input import ST4WindInput
@@ -66,7 +66,12 @@ def da(spec, v, whole=False):
     if whole and a.size and np.all(a == np.round(a)) and np.all(np.abs(a) < 2 ** 31):
         # whole numbers (a wind direction of 270 degrees, a speed of 10 m/s) may arrive as integers
         a = a.astype("int64")
-    return xarray.DataArray(a, dims=["time"], coords={"time": spec.dataset["time"]})
+    t = spec.dataset["time"].values
+    if whole is not None and int(abs(float(np.nansum(a))) * 1000) % 3 == 0:
+        # a wind record that carries its own time stamps (end of the averaging interval): the wind is used point by
+        # point, and the result stays labelled with the SPECTRUM's stamps
+        t = t + np.timedelta64(30, "m")
+    return xarray.DataArray(a, dims=["time"], coords={"time": t})
 
 
 _OBJECTS = {}
@@ -125,10 +130,12 @@ def run_case(c):
     z0 = fl(c["z0"]) if c.get("z0") is not None else None
 
     def fieldout(x):
+        audit("source-term field (rate / imbalance)", x, spec, call="spectral rate on dims %r" % (list(getattr(x, "dims", [])),))
         v = np.asarray(x.values if hasattr(x, "values") else x, dtype=float)
         return [b64(v[i]) for i in range(v.shape[0])]
 
     def vecout(x):
+        audit("bulk source-term result", x, spec, call="bulk rate / stress / roughness per point")
         v = np.asarray(x.values if hasattr(x, "values") else x, dtype=float)
         return [hx(a) for a in v.reshape(-1)]
 
